@@ -180,6 +180,16 @@ def r_chain(E):
             for loop in [n for n in nodes_c if isinstance(n, ast.For) and isinstance(n.target, ast.Name)]:
                 lv = loop.target.id
                 inserts, pops, undecidable = [], [], False
+                # the key under which an element is filed: the element, one of its attributes, a key function applied to
+                # it — or a local of the loop body bound to one of these
+                def _is_key_expr(e_):
+                    return (isinstance(e_, ast.Name) and e_.id == lv) or (
+                        isinstance(e_, ast.Attribute) and isinstance(e_.value, ast.Name) and e_.value.id == lv) or (
+                        isinstance(e_, ast.Call) and len(e_.args) == 1 and not e_.keywords
+                        and isinstance(e_.args[0], ast.Name) and e_.args[0].id == lv)
+                keys_ = {lv, f"{lv}.id"} | {st_.targets[0].id for st_ in loop.body if isinstance(st_, ast.Assign)
+                                            and len(st_.targets) == 1 and isinstance(st_.targets[0], ast.Name)
+                                            and _is_key_expr(st_.value)}
 
                 def scan(stmts, live):
                     nonlocal undecidable
@@ -195,13 +205,14 @@ def r_chain(E):
                             continue
                         for c in ast.walk(st):
                             if isinstance(c, ast.Call) and isinstance(c.func, ast.Attribute) and c.args \
-                                    and norm(c.args[0]) in (lv, f"{lv}.id"):
+                                    and (norm(c.args[0]) in keys_ or _is_key_expr(c.args[0])):
                                 if c.func.attr == "pop":
                                     pops.append((norm(c.func.value), len(inserts)))
                                 elif c.func.attr == "setdefault":
                                     inserts.append(norm(c.func.value))
                         if isinstance(st, ast.Assign) and isinstance(st.targets[0], ast.Subscript) \
-                                and norm(st.targets[0].slice) in (lv, f"{lv}.id") and norm(st.value) == lv:
+                                and (norm(st.targets[0].slice) in keys_ or _is_key_expr(st.targets[0].slice)) \
+                                and norm(st.value) == lv:
                             inserts.append(norm(st.targets[0].value))
                 scan(loop.body, True)
                 if inserts and len(set(inserts)) == 1 and not undecidable:
